@@ -409,3 +409,60 @@ Proof.
     + cbn. rewrite U. apply FIN. right. apply N.eqb_neq in HK. auto.
   - rewrite U. apply FIN. left; reflexivity.
 Qed.
+
+(* C10 after garbage collection, refresh to an ALREADY KEPT revision (undoLinkSnap's countMissingRevs with a non-zero count):
+   same conclusion, given that the garbage collection picks neither the target nor the current revision *)
+Theorem failed_after_gc_kept : forall s o j retain inuse,
+  wf s -> okind o = ORefresh -> accepts o s = true -> In (orev o) (seq s) -> cfg_guard o s ->
+  ~ In (orev o) (gc_revs s (orev o) retain inuse) -> ~ In (cur s) (gc_revs s (orev o) retain inuse) ->
+  forget (run_change o (S j) (tasks_for o s retain inuse) s)
+  = forget (minus (map snd (filter is_discard (firstn j (tasks_for o s retain inuse)))) s).
+Proof.
+  intros s o j retain inuse W K AC IN CG G1 G2.
+  rewrite run_change_fail, run_fail_strip.
+  assert (T : tasks_for o s retain inuse = install_tasks o s retain inuse) by (unfold tasks_for; rewrite K; reflexivity).
+  rewrite T. rewrite <- (filter_discard_ess (firstn j (install_tasks o s retain inuse))).
+  destruct (filter_firstn essential j (install_tasks o s retain inuse)) as [j1 E1]. rewrite E1.
+  rewrite install_tasks_ess.
+  assert (NR : is_revert o = false) by (unfold is_revert; rewrite K; reflexivity).
+  pose proof AC as AC'. unfold accepts in AC'. rewrite K in AC'. bool_hyps.
+  match goal with H : installed s = true |- _ => rename H into INST end.
+  assert (M : mem (orev o) (seq s) = true) by (apply mem_In; exact IN).
+  unfold ess_pre. rewrite M, INST, NR. cbn [negb andb app].
+  set (gc := gc_revs s (orev o) retain inuse) in *.
+  set (E := [(KUnlinkCurrent, orev o); (KLink, orev o)] : list task).
+  set (c := existsb _ _).
+  change ((KUnlinkCurrent, orev o) :: (KLink, orev o)
+          :: map (fun r : N => (KDiscard, r)) gc ++ [(KConfigure, orev o)])
+    with (E ++ map (fun r : N => (KDiscard, r)) gc ++ [(KConfigure, orev o)]).
+  destruct (le_lt_dec j1 2) as [L|L].
+  - assert (P : firstn j1 (E ++ map (fun r => (KDiscard, r)) gc ++ [(KConfigure, orev o)]) = firstn j1 E).
+    { rewrite firstn_app. replace (j1 - length E)%nat with O by (unfold E; simpl; lia). simpl. apply app_nil_r. }
+    unfold task in *. rewrite P.
+    assert (D0 : map snd (filter is_discard (firstn j1 E)) = []).
+    { unfold E. destruct j1 as [|[|[|j1]]]; reflexivity. }
+    unfold task in *. rewrite D0, forget_minus_nil.
+    assert (P2 : firstn j1 E = firstn j1 (ess_pre o s ++ [(KConfigure, orev o)])).
+    { unfold ess_pre. rewrite M, INST. cbn [app]. unfold E. destruct j1 as [|[|[|j1]]]; try reflexivity; lia. }
+    unfold task in *. rewrite P2. apply core_restores; auto. right; left; exact K.
+  - assert (P : firstn j1 (E ++ map (fun r => (KDiscard, r)) gc ++ [(KConfigure, orev o)])
+                = E ++ firstn (j1 - 2) (map (fun r => (KDiscard, r)) gc ++ [(KConfigure, orev o)])).
+    { rewrite firstn_app. rewrite firstn_all2 by (unfold E; simpl; lia). reflexivity. }
+    set (m := (j1 - 2)%nat) in *.
+    assert (Q : firstn m (map (fun r => (KDiscard, r) : task) gc ++ [(KConfigure, orev o)])
+                = map (fun r => (KDiscard, r) : task) (firstn m gc)
+                  ++ (if (length gc <? m)%nat then [(KConfigure, orev o)] else [])).
+    { rewrite firstn_app, firstn_map, map_length. destruct (length gc <? m)%nat eqn:LT.
+      - apply Nat.ltb_lt in LT. f_equal. destruct (m - length gc)%nat eqn:Z; [lia|cbn; rewrite firstn_nil; reflexivity].
+      - apply Nat.ltb_ge in LT. replace (m - length gc)%nat with O by lia. reflexivity. }
+    unfold task in *. rewrite P, Q.
+    assert (DD : map snd (filter is_discard (E ++ map (fun r : N => (KDiscard, r)) (firstn m gc)
+                   ++ (if (length gc <? m)%nat then [(KConfigure, orev o)] else []))) = firstn m gc).
+    { rewrite !filter_app, !map_app. unfold E at 1. cbn [filter is_discard fst kind_eqb map app].
+      pose proof (discards_of_map (firstn m gc)) as DM. unfold task in *. rewrite DM.
+      destruct (length gc <? m)%nat; cbn; rewrite app_nil_r; reflexivity. }
+    unfold task in *. rewrite DD.
+    apply after_gc_core_kept; auto.
+    + intros I. apply G2. eapply In_firstn; exact I.
+    + intros I. apply G1. eapply In_firstn; exact I.
+Qed.
